@@ -358,8 +358,9 @@ def key_reads(ctx, cls, gr):
             if p is not None:
                 facts = [U(e) for e, pol in C.facts_at(n) if pol]
                 key_txt = "'%s' in " % p[-1] if p else "?"
+                is_get = isinstance(n, ast.Call)      # `.get(key[, default])` tolerates a missing key like an `in` test does
                 reads.append(Read(p, node, f, any(x.startswith(key_txt) or ("self.%s_id in " % p[-1]) in x for x in facts)
-                                  or isinstance(n, ast.Compare)))
+                                  or isinstance(n, ast.Compare) or is_get))
         # calls to other process_* methods: bind their first parameter
         for n in ast.walk(f.node):
             if isinstance(n, ast.Call) and isinstance(n.func, ast.Attribute) and isinstance(n.func.value, ast.Name) \
